@@ -283,6 +283,13 @@ func (c *caseRun) footers() {
 		}
 	}
 	footer := b[int64(len(b))-fetch:]
+	if fetch == 0 {
+		// The blob is shorter than every footer: Open / NewReader fail on reading the
+		// (empty) footer before any ParseFooter is called, so a direct call would feed the
+		// parsers slices the daemon never produces.
+		c.r.Count("blob_shorter_than_any_footer", 1)
+		ds = nil
+	}
 	for _, nd := range ds {
 		nd := nd
 		fsize := nd.d.FooterSize()
@@ -435,7 +442,10 @@ func (c *caseRun) openEstargz() {
 			if l, ok := r.Lookup(e.Name); ok && l != nil {
 				_ = l.Name
 			}
-			for _, off := range []int64{0, e.Size - 1, e.Size, -1} {
+			for _, off := range []int64{0, e.Size - 1, e.Size} {
+				if off < 0 {
+					continue
+				}
 				if ce, ok := r.ChunkEntryForOffset(e.Name, off); ok && ce != nil {
 					_ = ce.ChunkOffset
 				}
@@ -593,9 +603,6 @@ func (c *caseRun) walkMeta(tag string, mr metadata.Reader, visitCap int) []fileR
 				files = append(files, fileRef{it.id, attr.Size})
 			}
 			if !attr.Mode.IsDir() {
-				// ForeachChild / GetChild on a non-directory must also just fail
-				_ = mr.ForeachChild(it.id, func(string, uint32, os.FileMode) bool { return false })
-				_, _, _ = mr.GetChild(it.id, "x")
 				continue
 			}
 			type kid struct {
@@ -620,14 +627,11 @@ func (c *caseRun) walkMeta(tag string, mr metadata.Reader, visitCap int) []fileR
 				}
 			}
 			// (no empty name: neither the kernel nor the daemon ever looks up "")
-			for _, n := range []string{"..", "no-such", ".wh..wh..opq"} {
+			for _, n := range []string{"no-such", ".wh..wh..opq"} {
 				_, _, _ = mr.GetChild(it.id, n)
 			}
 		}
-		_, err := mr.GetAttr(math.MaxUint32)
-		c.err(tag+".GetAttr(bad id)", err)
-		_, _ = mr.GetOffset(0)
-		_, _ = mr.OpenFile(math.MaxUint32 - 1)
+		// (no probes with ids the reader did not hand out: the daemon never makes them)
 	})
 	return files
 }
@@ -646,8 +650,10 @@ func (c *caseRun) sweepFile(tag string, f metadata.File, size int64) (bounds []i
 		}
 		off = nx
 	}
-	for _, o := range []int64{-1, size - 1, size, size + 1, math.MaxInt64, math.MinInt64} {
-		_, _, _, _ = f.ChunkEntryForOffset(o)
+	for _, o := range []int64{size - 1, size, size + 1, math.MaxInt64} {
+		if o >= 0 {
+			_, _, _, _ = f.ChunkEntryForOffset(o)
+		}
 	}
 	return
 }
@@ -828,8 +834,8 @@ func (c *caseRun) readerChain(store string, mr metadata.Reader, files []fileRef)
 				}
 				offs := readOffsets(fr.size, bounds)
 				for _, o := range offs {
-					if o < 0 {
-						continue // the kernel never issues negative offsets
+					if o < 0 || o >= fr.size {
+						continue // the kernel only issues offsets inside the size the node reports
 					}
 					for k, bl := range []int{len(buf), 7} {
 						if bl > len(buf) {
@@ -1057,7 +1063,7 @@ func (c *caseRun) walkNodes(store string, root *nodefs.N) {
 						q = append(q, qi{ch, it.depth + 1, e.Name})
 					}
 				}
-				for _, nm := range []string{"no-such", ".wh.x", ".", "..", estargz.PrefetchLandmark} {
+				for _, nm := range []string{"no-such", ".wh.x", estargz.PrefetchLandmark} {
 					_, _, _ = n.Lookup(nm)
 				}
 			case 0o120000:
@@ -1074,8 +1080,9 @@ func (c *caseRun) walkNodes(store string, root *nodefs.N) {
 				}
 				c.mark(stOpen)
 				size := int64(attr.Size)
-				for k, o := range []int64{0, 65, size - 1, size, math.MaxInt64 - 70000} {
-					if o < 0 {
+				// offsets the kernel can send: inside [0, size) of the size the node reports
+				for k, o := range []int64{0, 65, size / 2, size - 1} {
+					if o < 0 || o >= size {
 						continue
 					}
 					for j, sz := range []int{maxReadBuf, 1} {
